@@ -19,6 +19,7 @@ RULE = (
     "replace exactly the reported span of one drawn literal by str() of an edited mark and recompile: only parameters "
     "with that mark's name change, to the edited value; all other ops and parameters are unchanged. Non-trivial = >= 2 "
     "literals on one line or >= 1 literal spanning lines; distinct by content hash."
+    ' One program in six gets its extra marks in the shortest statements there are (one-letter names, the empty mark name, one-digit coordinates); one layout in four is minified.'
 )
 ASSUMPTIONS = ["mark names are unique per program, so 'the parameter produced for that literal' is found by name"]
 CASES = {"quick": 4800, "thorough": 40000}
